@@ -6,6 +6,7 @@ list methods : setitem[i,v] setslice[a,b,aslist,items] delitem[i] delslice[a,b] 
                pop[i|None] remove[v] reverse[] sort[rev] clear[] iadd[items] imul[n]
 dict methods : dsetitem[k,v] ddelitem[k] update[form,kvs] setdefault[k,v] dpop[k,has_default,default] popitem[] dclear[] ior[kvs]
 read         : read[name]        (a non-mutating name of dir(list) / dir(dict))
+touch_other  : {'m': 'touch_other', 'a': [n]}   assign the object's *other* attribute (no effect on this one)
 """
 import copy, json, operator
 
@@ -170,6 +171,10 @@ class Session(object):
             self.orm.commit(); return None
         if m == 'newsession':
             self.leave(); self.sess += 1; self.enter(); return None
+        if m == 'touch_other':            # assign the object's other attribute: the object becomes 'modified' for another column
+            if self.kind == 'json': self.obj.a = [op['a'][0]]
+            else: self.obj.j = {'t': op['a'][0]}
+            return None
         try:
             apply_op(navigate(self.value(), op['p']), m, op['a'])
             return None
@@ -212,7 +217,7 @@ def run_property(kind, doc, ops):
     try:
         trace = []
         for op in ops:
-            before = untag(s.state()['root']) if op['m'] not in ('commit', 'newsession') else None
+            before = untag(s.state()['root']) if op['m'] not in ('commit', 'newsession', 'touch_other') else None
             err = s.step(op)
             st = s.state()
             trace.append({'tagged': all_tagged(st['root'], s.sess), 'dirty': st['dirty'], 'err': err,
